@@ -46,7 +46,8 @@ func checkRepeat(c Case) *pk.Failure {
 	req := c.Request("vm", "tree")
 	req.Rep = c.Reps
 	req.GoMaxProcs = c.GoMaxProcs
-	req.RerunCompiled = 2 // each repetition also runs its compiled program twice more on fresh VMs
+	req.RerunCompiled = 2     // each repetition also runs its compiled program twice more on fresh VMs
+	req.RecompileAnalysed = 2 // ... and compiles its analysed modules twice more, running each result
 	resp := px.Pool().Exec(req)
 	if f := px.SandboxFailure("repeat", resp); f != nil {
 		f.Msg = px.ProgText(c.ProgCase) + "\n" + f.Msg
